@@ -114,7 +114,7 @@ class C20(Prop):
                  "embedding model", "event loop clock (SimLoop)"],
     }
     assumptions = ["the root itself counts as inside the root (config_id '.' resolves to it); confinement is judged on os.path.realpath", "store errors are outside the property's quantifier (not injected)"]
-    expected_probes = ["answering_config_identified", "hostile_id_rejected", "valid_id_loaded", "thread_second_request", "concurrent_threads", "combined_config_ids", "empty_config_id"]
+    expected_probes = ["answering_config_identified", "hostile_id_rejected", "valid_id_loaded", "thread_second_request", "thread_request_with_returned_state", "concurrent_threads", "combined_config_ids", "empty_config_id"]
     ddmin_paths = [("requests",)]
     quick_runs = 400
     thorough_runs = 30000
@@ -150,6 +150,10 @@ class C20(Prop):
             if d.chance(0.2, "extra", i):
                 # a request may bring several new messages at once (a client catching up): all of them follow the stored thread
                 r["extra"] = [{"role": "user", "content": "earlier question %d" % i}, {"role": "assistant", "content": "earlier answer %d" % i}][: d.randint(1, 2, "nextra", i)]
+            if d.chance(0.3, "state", i):
+                # an explicit state object next to the thread id: the state the server returned for this thread before
+                # ("prev"), or an empty one - the thread is used and updated all the same
+                r["state"] = d.choice(["prev", "prev", "empty"], "statekind", i)
             reqs.append(r)
         return {"requests": reqs, "family": d.weighted([("seq", 3), ("conc", 2)], "family"), "default_config_id": d.choice([None, None, "cfgA"], "default"), "lat_seed": d.randint(0, 1 << 30, "lat")}
 
@@ -205,6 +209,8 @@ class C20(Prop):
                     return [expand(y) for y in x]
                 return x.replace("@R@", root).replace("@B@", base) if isinstance(x, str) else x
 
+            last_state = {}
+
             async def one(i, r):
                 tok = llm_peer.conv_var.set("r%d" % i)
                 try:
@@ -212,6 +218,10 @@ class C20(Prop):
                     for k in ("config_id", "config_ids", "thread_id", "context"):
                         if k in r:
                             body[k] = expand(copy.deepcopy(r[k])) if k.startswith("config") else copy.deepcopy(r[k])
+                    if r.get("state"):
+                        body["state"] = copy.deepcopy(last_state.get(r.get("thread_id")) or {}) if r["state"] == "prev" else {}
+                        if body["state"]:
+                            out.probe("thread_request_with_returned_state")
                     try:
                         rb = api.RequestBody(**body)
                     except control.SimControl:
@@ -222,6 +232,8 @@ class C20(Prop):
                     try:
                         res = await api.chat_completion(rb, FakeRequest())
                         results[i] = ("ok", res)
+                        if isinstance(res, dict) and res.get("state") and r.get("thread_id"):
+                            last_state[r["thread_id"]] = res["state"]
                     except control.SimControl:
                         raise
                     except asyncio.CancelledError:
